@@ -1,15 +1,19 @@
 #!/usr/bin/env bash
 # usage: tools/seeded_rerun.sh [<name>...]   -- re-apply every recorded seeded change (seeded/<ID>-<n>/patch.diff) to /repo, run the
 # quick check(s) that are recorded as catching it, undo it; one line per change in seeded/RERUN.log (evidence files are kept aside).
+# With SEEDED_WT=<scratch worktree of /repo at HEAD> the change is applied there instead and the checks run against it through
+# the VERIF_REPO development aid (so /repo stays free for other work while the two-hour rerun is going).
 set -u
 cd /verif
+REPO="${SEEDED_WT:-/repo}"
+[ "$REPO" != "/repo" ] && export VERIF_REPO="$REPO"
 names="${*:-$(ls seeded | grep -E '^C[0-9]+-[0-9]+$' | sort -V)}"
 : > seeded/RERUN.log.new
 for n in $names; do
   d="seeded/$n"
   ids=$(python3 -c "import json,re;m=json.load(open('$d/meta.json'));print(' '.join(re.findall(r'C\d\d', m['detection']['caught_by'])) or m['property'])")
-  if ! git -C /repo apply --check "$d/patch.diff" 2>/dev/null; then echo "$n APPLY-FAILED" | tee -a seeded/RERUN.log.new; continue; fi
-  git -C /repo apply "$d/patch.diff"
+  if ! git -C "$REPO" apply --check "$d/patch.diff" 2>/dev/null; then echo "$n APPLY-FAILED" | tee -a seeded/RERUN.log.new; continue; fi
+  git -C "$REPO" apply "$d/patch.diff"
   res=""
   for id in $ids; do
     cp -f "evidence/$id.json" "/tmp/evidence-$id.keep" 2>/dev/null
@@ -19,7 +23,7 @@ for n in $names; do
     res="$res $id:rc=$rc:cases=$cases"
     [ "$rc" -eq 1 ] && break
   done
-  git -C /repo checkout -- . ; git -C /repo clean -fdq -- geo geo-types jts-test-runner
+  git -C "$REPO" checkout -- . ; git -C "$REPO" clean -fdq -- geo geo-types jts-test-runner
   case "$res" in *rc=1*) verdict=CAUGHT ;; *) verdict=MISSED ;; esac
   echo "$n $verdict$res" | tee -a seeded/RERUN.log.new
 done
